@@ -175,6 +175,21 @@ impl C19 {
                 (TOP - 0xf, 0x10, 3),
                 (TOP, 1, 3),
             ];
+            // a short (0-13 bytes) or empty executable neighbour exactly at the end of the code area: the fetch window
+            // of an instruction near the end of the code reaches the seam
+            if rng.below(3) == 0 {
+                if let Some(end) = code_at.checked_add(code_len) {
+                    let n = *rng.pick(&[0u64, 0, 1, 2, 5, 13, 14, 0x10]);
+                    let fill = rng.bytes(n as usize);
+                    let r = call(|| {
+                        ax.mem_init_area(end, fill.clone())?;
+                        ax.mem_prot(end, *rng.pick(&[5u32, 7, 4, 1]))
+                    });
+                    if r.is_ok() {
+                        edges.push(end.wrapping_add(n));
+                    }
+                }
+            }
             for c in cands.iter() {
                 if rng.below(3) == 0 {
                     continue;
